@@ -244,8 +244,8 @@ def configs(tier):
     insts = cg.instances(tier, small=(tier == "quick"))
     if tier == "quick":
         insts = insts[:6]
-    for i in insts:
-        for pad in ((0,) if tier == "quick" else (0, 1, 2)):
+    for k, i in enumerate(insts):
+        for pad in ((0,) if tier == "quick" else ((0, 1, 2) if k < 6 else (0, 1))):
             ring.append(dict(inst=i, pad=pad))
     if tier == "quick":
         ring.append(dict(inst=insts[0], pad=1))
